@@ -3,9 +3,10 @@ CONSTANTS
   Reqs <- Reqs4
   Parts <- P2132
   RegAfter <- RegFirst
+  KeyOf <- IdKey
   Dups = {3, 5}
   LookupAtomic = TRUE
   FailIdx = {}
-INVARIANTS NoSpurious MatchOnce NoLoss RegisterFirst
+INVARIANTS NoSpurious MatchOnce NoLoss RightType RegisterFirst
 CHECK_DEADLOCK FALSE
 VIEW McView
